@@ -179,7 +179,7 @@ def handle (toks : List String) : String :=
           | some path => match findAvps env.dict avps cache path with
             | .ok (r, cache') => (acc ++ [showAvps r], cache')
             | .error e => (acc ++ [exc e], cache)
-        " ".intercalate outs
+        ";".intercalate outs
     | none => "BAD"
   | ["TYPED", o] =>
     match run pFVal o with
